@@ -7,5 +7,5 @@ import "time"
 // Controlled is false in binaries built without the GOROOT overlay.
 const Controlled = false
 
-func SetClockOffset(d time.Duration)    {}
-func SetMapSeed(on bool, seed uint64)   {}
+func SetClockOffset(d time.Duration)  {}
+func SetMapSeed(on bool, seed uint64) {}
